@@ -1461,6 +1461,8 @@ class Interp(object):
             obj = ('O', ci.key, self._oid(node, fctx))
             self.obj_class[obj] = ci
             init = self.repo.lookup_method(ci, '__init__')
+            if init is not None:
+                args, kws = self._canon_call(init, 1, args, kws)
             st.effects.append(Effect('call', target=('CLS', ci.key), op=ci.key, args=args, kws=kws, node=node, result=obj, extra='new'))
             if init is not None and allow_inline and self.policy.inline(init, len(fctx[1]), node):
                 out = []
@@ -1471,6 +1473,7 @@ class Interp(object):
         if kind in ('func', 'closure'):
             fi = r[1]
             selft = r[2] if kind == 'func' else None
+            args, kws = self._canon_call(fi, 1 if selft is not None else 0, args, kws)
             res = ('C', fi.key, ((selft,) if selft is not None else ()) + args, kws)
             if allow_inline and fi not in self.stack and not _is_generator(fi.node) \
                     and self.policy.inline(fi, len(fctx[1]), node):
@@ -1481,6 +1484,24 @@ class Interp(object):
                                      kws=kws, node=node, result=res, extra='package'))
             return [(st, res)]
         raise AssertionError(r)
+
+    def _canon_call(self, fi, offset, args, kws):
+        """one spelling for a call of a package function: arguments passed by keyword that continue the positional ones without
+        a gap are moved to their positions (`f(a, b=1)` is `f(a, 1)` when b is f's second parameter).  The argument terms are
+        already evaluated, so nothing about evaluation order changes."""
+        if not kws or any(x[0] == 'STAR' for x in args) or any(n is None for n, _ in kws):
+            return args, kws
+        pos = fi.params()[0]
+        posonly = len(fi.node.args.posonlyargs)
+        kwd = dict(kws)
+        out = list(args)
+        i = offset + len(out)
+        while i < len(pos) and i >= posonly and pos[i] in kwd:
+            out.append(kwd.pop(pos[i]))
+            i += 1
+        if len(out) == len(args):
+            return args, kws
+        return tuple(out), tuple((n, v) for n, v in kws if n in kwd)
 
     def _ext_call(self, name, args, kws, node, st, fctx):
         res = ('C', name, args, kws)
